@@ -1,10 +1,22 @@
-(* C03 -- proto: Size(v) == len(Marshal(v)), Marshal never fails, round trip.
-   (The round-trip theorem is in preparation in Proto/RoundTrip.v.) *)
-From Verif Require Import Base.GoInt Proto.Ext Generated.ProtoGen Proto.Model Proto.PrimSpec Proto.Spec Proto.EncProofs.
+(* C03 -- proto: Unmarshal(Marshal(v)) == v, Size(v) == len(Marshal(v)), Marshal never fails.
+   Model: Proto/Model.v (hand-written, tied by correspondence) over the MACHINE-TRANSLATED wire
+   primitives of Generated/ProtoGen.v. *)
+From Verif Require Import Base.GoInt Proto.Ext Generated.ProtoGen Proto.Model Proto.PrimSpec Proto.Spec Proto.EncProofs Proto.RoundTrip.
 
 (* Marshal succeeds and returns exactly Size(v) bytes, for every value of the universe *)
 Theorem marshal_never_fails : marshal_never_fails_statement.
 Proof. exact EncProofs.marshal_never_fails. Qed.
-
 Theorem encode_exact : encode_exact_statement.
 Proof. exact EncProofs.encode_exact. Qed.
+
+(* the round trip, for every supported type and every representable value (nested and pointer-to structs, repeated
+   fields and maps of any size, zigzag / fixed tags, byte arrays, RawMessage): up to nil-versus-empty *)
+Theorem roundtrip : roundtrip_statement.
+Proof. exact RoundTrip.roundtrip. Qed.
+
+(* what lies outside: the recorded finding F17 (a non-nil pointer to a message with empty encoding decodes as nil) ... *)
+Theorem ptr_empty_refuted : ptr_empty_refuted_statement.
+Proof. exact RoundTrip.ptr_empty_refuted. Qed.
+(* ... and the naive statement without normalising both sides *)
+Theorem roundtrip_naive_refuted : ~ roundtrip_naive_statement.
+Proof. exact RoundTrip.roundtrip_statement_false. Qed.
